@@ -214,6 +214,10 @@ Section BuilderProofs.
   Hypothesis cruise_ok : forall k a m t r f, perf k Cruise a m = Some (t, r, f) -> 0 < t /\ 0 <= f.
 
   Variable origin : R * R * R.          (* lon, lat, azimuth of ground_track[0] *)
+  (* ground speed under wind (C16's oracle): whatever it answers is positive *)
+  Variable gsp : nat -> R -> option R.
+  Variable use_wx : bool.
+  Hypothesis wind_ok : forall k t g, gsp k t = Some g -> 0 < g.
 
   (* every stored position is the geodesic point at the stored ground distance *)
   Definition pos_ok (p : pt) : Prop :=
@@ -234,10 +238,20 @@ Section BuilderProofs.
     apply Rltb_false in E1. apply Rltb_false in E2. intros H; inversion H; auto.
   Qed.
 
+  Lemma ground_speed_ok : forall total kg dist tas g,
+    @ground_speed RNum gsp use_wx total kg dist tas = Ok g -> (0 <= tas -> 0 <= g) /\ (0 < tas -> 0 < g).
+  Proof.
+    unfold ground_speed; intros total kg dist tas g H. destruct use_wx.
+    - destruct ((dist <? zero)%num || (total <? dist)%num); [discriminate|].
+      destruct (gsp kg tas) as [g0|] eqn:E; [|discriminate]. inversion H; subst.
+      pose proof (wind_ok _ _ _ E). split; intros; lra.
+    - inversion H; subst. auto.
+  Qed.
+
   (* ---------------- climb / descent ---------------- *)
   Section LC.
     Variable rl : rule.
-    Variable lhv start delta : R.
+    Variable lhv start delta total : R.
     Hypothesis sgn : forall k a m t r f, perf k rl a m = Some (t, r, f) -> 0 <= delta / r /\ 0 < t.
 
     Lemma seg_fuel_nonneg : forall p a a_end, 0 <= @lc_seg_fuel RNum delta lhv p a a_end.
@@ -250,7 +264,7 @@ Section BuilderProofs.
 
     Lemma lc_inv : forall m idx p kp kg l kp' kg',
       pos_ok p ->
-      @lc_loop RNum perf geo rl lhv start delta m idx p kp kg = Ok (l, kp', kg') ->
+      @lc_loop RNum perf geo gsp use_wx rl lhv start delta total m idx p kp kg = Ok (l, kp', kg') ->
       chain p l /\ length l = S m /\ Forall (Plc rl) l /\ alts start delta l idx /\ hd_same p l.
     Proof.
       induction m as [|m IH]; intros idx p kp kg l kp' kg' Hpos H; simpl in H.
@@ -268,6 +282,8 @@ Section BuilderProofs.
         + unfold hd_same, lc_last; simpl; auto.
       - match type of H with context [perf kp rl ?xa ?xb] =>
           destruct (perf kp rl xa xb) as [a|] eqn:Ep; [|discriminate] end.
+        match type of H with context [@ground_speed RNum gsp use_wx ?x1 ?x2 ?x3 ?x4] =>
+          destruct (@ground_speed RNum gsp use_wx x1 x2 x3 x4) as [gs|eg] eqn:Egs; [|discriminate] end.
         match type of H with context [track_step ?xg ?xk ?xx ?xy] =>
           destruct (@track_step RNum xg xk xx xy) as [g0|] eqn:Eg; [|discriminate] end.
         match type of H with context [perf (S kp) rl ?xa ?xb] =>
@@ -279,15 +295,15 @@ Section BuilderProofs.
         destruct a as [[t r] f]. destruct g0 as [[lon lat] az].
         destruct (sgn _ _ _ _ _ _ Ep) as (Hst & Ht).
         pose proof (seg_fuel_nonneg p (t, r, f) a_end) as Hsf.
-        assert (Hpos' : pos_ok (lc_next (@add RNum start (@mul RNum idx delta)) delta lhv p (t, r, f) (lon, lat, az) a_end)).
+        assert (Hpos' : pos_ok (lc_next (@add RNum start (@mul RNum idx delta)) delta lhv p (t, r, f) gs (lon, lat, az) a_end)).
         { right. exists kg. exact Hg. }
         destruct (IH _ _ _ _ _ _ _ Hpos' El) as (Hc & Hl & HF & Ha & Hh).
-        assert (Hle : le_pt (lc_q (@add RNum start (@mul RNum idx delta)) p (t, r, f))
-                            (lc_next (@add RNum start (@mul RNum idx delta)) delta lhv p (t, r, f) (lon, lat, az) a_end)).
+        assert (Hle : le_pt (lc_q (@add RNum start (@mul RNum idx delta)) p (t, r, f) gs)
+                            (lc_next (@add RNum start (@mul RNum idx delta)) delta lhv p (t, r, f) gs (lon, lat, az) a_end)).
         { assert (Hst' : 0 <= @lc_seg_time RNum delta (t, r, f)) by exact Hst.
-          assert (Hd' : 0 <= @lc_dist RNum delta (t, r, f)) by exact Hd.
+          assert (Hd' : 0 <= @lc_dist RNum delta (t, r, f) gs) by exact Hd.
           unfold le_pt, lc_q, lc_next.
-          remember (@lc_dist RNum delta (t, r, f)) as dd. remember (@lc_seg_time RNum delta (t, r, f)) as st.
+          remember (@lc_dist RNum delta (t, r, f) gs) as dd. remember (@lc_seg_time RNum delta (t, r, f)) as st.
           remember (@lc_seg_fuel RNum delta lhv p (t, r, f) a_end) as sf.
           simpl. rnum. repeat split; lra. }
         split; [|split; [|split; [|split]]].
@@ -304,15 +320,18 @@ Section BuilderProofs.
   End LC.
 
   (* ---------------- cruise ---------------- *)
-  Lemma crz_inv : forall (step : R) m (p : pt) kp kg l kp' kg',
+  Lemma crz_inv : forall (step total : R) m (p : pt) kp kg l kp' kg',
     0 < p_tas p -> pos_ok p ->
-    @crz_loop RNum perf geo step m p kp kg = Ok (l, kp', kg') ->
+    @crz_loop RNum perf geo gsp use_wx step total m p kp kg = Ok (l, kp', kg') ->
     chain p l /\ length l = m /\ Forall Pcrz l /\ Forall (fun q => p_alt q = p_alt p) l /\
     ((0 < m)%nat -> hd_same p l /\ 0 <= step).
   Proof.
-    intros step. induction m as [|m IH]; intros p kp kg l kp' kg' Htas Hpos H; simpl in H.
+    intros step total. induction m as [|m IH]; intros p kp kg l kp' kg' Htas Hpos H; simpl in H.
     - inversion H; subst. simpl. repeat split; auto; lia.
-    - match type of H with context [track_step ?xg ?xk ?xx ?xy] =>
+    - match type of H with context [@ground_speed RNum gsp use_wx ?x1 ?x2 ?x3 ?x4] =>
+        destruct (@ground_speed RNum gsp use_wx x1 x2 x3 x4) as [gs|eg] eqn:Egs; [|discriminate] end.
+      destruct (ground_speed_ok _ _ _ _ _ Egs) as (_ & Hgs). specialize (Hgs Htas).
+      match type of H with context [track_step ?xg ?xk ?xx ?xy] =>
         destruct (@track_step RNum xg xk xx xy) as [g0|] eqn:Eg; [|discriminate] end.
       match type of H with context [perf kp Cruise ?xa ?xb] =>
         destruct (perf kp Cruise xa xb) as [a|] eqn:Ep; [|discriminate] end.
@@ -322,14 +341,14 @@ Section BuilderProofs.
       apply track_step_some in Eg. destruct Eg as (Hfrom & Hd & Hg).
       destruct a as [[t r] f]. destruct g0 as [[lon lat] az].
       destruct (cruise_ok _ _ _ _ _ _ Ep) as (Ht & Hf).
-      assert (Hseg : 0 <= step / p_tas p).
+      assert (Hseg : 0 <= step / gs).
       { unfold Rdiv. apply Rle_mult_inv_pos; auto. }
-      assert (Hsf : 0 <= f * (step / p_tas p)) by (apply Rmult_le_pos; auto).
-      assert (Htas' : 0 < p_tas (@crz_next RNum step p (lon, lat, az) (t, r, f))) by (simpl; auto).
-      assert (Hpos' : pos_ok (@crz_next RNum step p (lon, lat, az) (t, r, f))).
+      assert (Hsf : 0 <= f * (step / gs)) by (apply Rmult_le_pos; auto).
+      assert (Htas' : 0 < p_tas (@crz_next RNum step p gs (lon, lat, az) (t, r, f))) by (simpl; auto).
+      assert (Hpos' : pos_ok (@crz_next RNum step p gs (lon, lat, az) (t, r, f))).
       { right. exists kg. exact Hg. }
       destruct (IH _ _ _ _ _ _ Htas' Hpos' El) as (Hc & Hl & HF & Ha & Hh).
-      assert (Hle : le_pt (crz_q p) (@crz_next RNum step p (lon, lat, az) (t, r, f))).
+      assert (Hle : le_pt (crz_q p gs) (@crz_next RNum step p gs (lon, lat, az) (t, r, f))).
       { unfold le_pt, crz_q, crz_next. simpl. rnum. repeat split; lra. }
       split; [|split; [|split; [|split]]].
       + simpl. split; [unfold le_pt, crz_q; simpl; repeat split; lra|]. eapply chain_weaken; eauto.
@@ -341,28 +360,30 @@ Section BuilderProofs.
   Qed.
 
   (* a cruise leg of negative length (the mission is too short for climb + descent) is refused *)
-  Lemma too_short_refused : forall (step : R) m (p : pt) kp kg,
-    step < 0 -> @crz_loop RNum perf geo step (S m) p kp kg = Err ETrack.
+  Lemma too_short_refused : forall (step total : R) m (p : pt) kp kg,
+    step < 0 -> exists e, @crz_loop RNum perf geo gsp use_wx step total (S m) p kp kg = Err e.
   Proof.
-    intros step m p kp kg Hs. simpl. unfold track_step. rnum.
+    intros step total m p kp kg Hs. simpl.
+    destruct (@ground_speed RNum gsp use_wx total kg (p_dist p) (p_tas p)) as [gs|e]; [|eexists; reflexivity].
+    unfold track_step. rnum.
     replace (Rltb step 0) with true by (symmetry; apply Rltb_true; auto).
-    rewrite orb_true_r. reflexivity.
+    rewrite orb_true_r. eexists; reflexivity.
   Qed.
 
   (* a state outside the envelope ends the flight with an error *)
-  Lemma outside_envelope_refused_lc : forall rl (lhv start delta : R) m (idx : R) (p : pt) kp kg,
+  Lemma outside_envelope_refused_lc : forall rl (lhv start delta total : R) m (idx : R) (p : pt) kp kg,
     perf kp rl (start + idx * delta) (p_mass p) = None ->
-    @lc_loop RNum perf geo rl lhv start delta m idx p kp kg = Err EPerf.
+    @lc_loop RNum perf geo gsp use_wx rl lhv start delta total m idx p kp kg = Err EPerf.
   Proof. intros. destruct m; simpl; rnum; rewrite H; reflexivity. Qed.
 
-  Lemma outside_envelope_refused_crz : forall (step : R) m (p : pt) kp kg,
-    0 <= p_dist p -> 0 <= step -> perf kp Cruise (p_alt p) (p_mass p) = None ->
-    @crz_loop RNum perf geo step (S m) p kp kg = Err EPerf.
+  Lemma outside_envelope_refused_crz : forall (step total : R) m (p : pt) kp kg,
+    perf kp Cruise (p_alt p) (p_mass p) = None ->
+    exists e, @crz_loop RNum perf geo gsp use_wx step total (S m) p kp kg = Err e.
   Proof.
-    intros. simpl. unfold track_step. rnum.
-    replace (Rltb (p_dist p) 0) with false by (symmetry; apply Rltb_false; auto).
-    replace (Rltb step 0) with false by (symmetry; apply Rltb_false; auto).
-    simpl. rewrite H1. reflexivity.
+    intros. simpl.
+    destruct (@ground_speed RNum gsp use_wx total kg (p_dist p) (p_tas p)) as [gs|e]; [|eexists; reflexivity].
+    destruct (@track_step RNum geo kg (p_dist p) step); [|eexists; reflexivity].
+    rewrite H. eexists; reflexivity.
   Qed.
 
   (* ---------------- one whole flight iteration (hand-over = last point) ---------------- *)
@@ -397,7 +418,7 @@ Section BuilderProofs.
   Theorem fly_iteration_facts : forall (f : flight) (s : sched) (sm tf : R) kp kg t r kp' kg',
     sched_ok s -> (2 <= f_n_clm f)%nat -> (2 <= f_n_crz f)%nat -> (2 <= f_n_des f)%nat ->
     origin = (f_o_lon f, f_o_lat f, f_az0 f) ->
-    @fly_iteration RNum perf geo true f s sm tf kp kg = Ok (t, r, kp', kg') ->
+    @fly_iteration RNum perf geo true gsp use_wx f s sm tf kp kg = Ok (t, r, kp', kg') ->
     flight_facts f s sm tf t /\ r = (tf - (sm - p_mass (last (points t) pt0))) / tf.
   Proof.
     intros f s sm tf kp kg t r kp' kg' (Hs1 & Hs2 & Hs3) Hn1 Hn2 Hn3 Ho H.
@@ -554,16 +575,16 @@ Section BuilderProofs.
 
   (* ---------------- mass iteration ---------------- *)
   Lemma iterate_S : forall (f : flight) (s : sched) (reltol : R) k t r sm tf kp kg,
-    @iterate RNum perf geo true f s reltol (S k) t r sm tf kp kg =
+    @iterate RNum perf geo true gsp use_wx f s reltol (S k) t r sm tf kp kg =
     if Rltb (Rabs r) reltol then Ok (t, r, sm, tf, kp, kg)
-    else match @fly_iteration RNum perf geo true f s (sm - r * tf) (tf - r * tf) kp kg with
+    else match @fly_iteration RNum perf geo true gsp use_wx f s (sm - r * tf) (tf - r * tf) kp kg with
          | Err e => Err e
-         | Ok (t', r', kp', kg') => @iterate RNum perf geo true f s reltol k t' r' (sm - r * tf) (tf - r * tf) kp' kg'
+         | Ok (t', r', kp', kg') => @iterate RNum perf geo true gsp use_wx f s reltol k t' r' (sm - r * tf) (tf - r * tf) kp' kg'
          end.
   Proof. reflexivity. Qed.
 
   Theorem iterate_tolerance_or_error : forall (f : flight) (s : sched) (reltol : R) k t r sm tf kp kg,
-    match @iterate RNum perf geo true f s reltol k t r sm tf kp kg with
+    match @iterate RNum perf geo true gsp use_wx f s reltol k t r sm tf kp kg with
     | Ok (t', r', sm', tf', _, _) => Rabs r' < reltol
     | Err _ => True
     end.
@@ -571,35 +592,35 @@ Section BuilderProofs.
     intros f s reltol. induction k as [|k IH]; intros t r sm tf kp kg; [simpl; auto|].
     rewrite iterate_S. destruct (Rltb (Rabs r) reltol) eqn:E.
     - apply Rltb_true in E. exact E.
-    - destruct (@fly_iteration RNum perf geo true f s (sm - r * tf) (tf - r * tf) kp kg)
+    - destruct (@fly_iteration RNum perf geo true gsp use_wx f s (sm - r * tf) (tf - r * tf) kp kg)
         as [[[[t' r'] kp'] kg']|e0]; auto. apply IH.
   Qed.
 
   (* the starting mass and the fuel load are corrected by the same amount: the dry mass is untouched *)
   Theorem iterate_keeps_dry_mass : forall (f : flight) (s : sched) (reltol : R) k t r sm tf kp kg t' r' sm' tf' kp' kg',
-    @iterate RNum perf geo true f s reltol k t r sm tf kp kg = Ok (t', r', sm', tf', kp', kg') ->
+    @iterate RNum perf geo true gsp use_wx f s reltol k t r sm tf kp kg = Ok (t', r', sm', tf', kp', kg') ->
     sm' - tf' = sm - tf.
   Proof.
     intros f s reltol. induction k as [|k IH]; intros t r sm tf kp kg t' r' sm' tf' kp' kg' H;
       [simpl in H; discriminate|].
     rewrite iterate_S in H. destruct (Rltb (Rabs r) reltol).
     - inversion H; subst; reflexivity.
-    - destruct (@fly_iteration RNum perf geo true f s (sm - r * tf) (tf - r * tf) kp kg)
+    - destruct (@fly_iteration RNum perf geo true gsp use_wx f s (sm - r * tf) (tf - r * tf) kp kg)
         as [[[[t1 r1] kp1] kg1]|e0]; [|discriminate].
       apply IH in H. lra.
   Qed.
 
   (* the trajectory that [iterate] returns is the result of a whole flight iteration (or the one handed in) *)
   Theorem iterate_returns_flown : forall (f : flight) (s : sched) (reltol : R) k t r sm tf kp kg t' r' sm' tf' kp' kg',
-    @iterate RNum perf geo true f s reltol k t r sm tf kp kg = Ok (t', r', sm', tf', kp', kg') ->
+    @iterate RNum perf geo true gsp use_wx f s reltol k t r sm tf kp kg = Ok (t', r', sm', tf', kp', kg') ->
     (t' = t /\ r' = r /\ sm' = sm /\ tf' = tf /\ kp' = kp /\ kg' = kg) \/
-    exists kp0 kg0, @fly_iteration RNum perf geo true f s sm' tf' kp0 kg0 = Ok (t', r', kp', kg').
+    exists kp0 kg0, @fly_iteration RNum perf geo true gsp use_wx f s sm' tf' kp0 kg0 = Ok (t', r', kp', kg').
   Proof.
     intros f s reltol. induction k as [|k IH]; intros t r sm tf kp kg t' r' sm' tf' kp' kg' H;
       [simpl in H; discriminate|].
     rewrite iterate_S in H. destruct (Rltb (Rabs r) reltol).
     - inversion H; subst; left; repeat split; auto.
-    - destruct (@fly_iteration RNum perf geo true f s (sm - r * tf) (tf - r * tf) kp kg)
+    - destruct (@fly_iteration RNum perf geo true gsp use_wx f s (sm - r * tf) (tf - r * tf) kp kg)
         as [[[[t1 r1] kp1] kg1]|e0] eqn:E1; [|discriminate].
       destruct (IH _ _ _ _ _ _ _ _ _ _ _ _ H) as [(-> & -> & -> & -> & -> & ->)|(kp0 & kg0 & H0)].
       + right. exists kp, kg. exact E1.
@@ -609,38 +630,45 @@ Section BuilderProofs.
   (* ---------------- Builder.fly ---------------- *)
   Notation result := (@C02_Model.result RNum).
 
-  Theorem fly_facts : forall (f : flight) it max_iters (reltol : R) (res : result),
-    (2 <= f_n_clm f)%nat -> (2 <= f_n_crz f)%nat -> (2 <= f_n_des f)%nat ->
+  (* what happens after the starting mass and the fuel load are known *)
+  Definition fly_tail (f : flight) (s : sched) (it : bool) (max_iters : nat) (reltol sm tf : R) : res result :=
+    match @fly_iteration RNum perf geo true gsp use_wx f s sm tf 1 0 with
+    | Err e => Err e
+    | Ok (t, r, kp, kg) =>
+      if it then
+        match @iterate RNum perf geo true gsp use_wx f s reltol (Nat.pred max_iters) t r sm tf kp kg with
+        | Err e => Err e
+        | Ok (t', r', sm', tf', kp', kg') => Ok (mkresult t' r' sm' tf' kp' kg')
+        end
+      else Ok (mkresult t r sm tf kp kg)
+    end.
+
+  Lemma fly_tail_facts : forall (f : flight) (s : sched) it max_iters (reltol sm tf : R) (res : result),
+    sched_ok s -> (2 <= f_n_clm f)%nat -> (2 <= f_n_crz f)%nat -> (2 <= f_n_des f)%nat ->
     origin = (f_o_lon f, f_o_lat f, f_az0 f) ->
-    @fly RNum perf geo true f None it max_iters reltol = Ok res ->
-    exists s, @schedule RNum (f_o_alt f) (f_d_alt f) (f_max_alt f) = Ok s /\ sched_ok s /\
-      flight_facts f s (r_start_mass res) (r_total_fuel res) (r_traj res) /\
-      r_residual res = (r_total_fuel res - (r_start_mass res - p_mass (last (points (r_traj res)) pt0))) / r_total_fuel res /\
-      (it = true -> Rabs (r_residual res) < reltol).
+    fly_tail f s it max_iters reltol sm tf = Ok res ->
+    flight_facts f s (r_start_mass res) (r_total_fuel res) (r_traj res) /\
+    r_residual res = (r_total_fuel res - (r_start_mass res - p_mass (last (points (r_traj res)) pt0))) / r_total_fuel res /\
+    (it = true -> Rabs (r_residual res) < reltol) /\
+    r_start_mass res - r_total_fuel res = sm - tf /\ (it = false -> r_start_mass res = sm).
   Proof.
-    intros f it max_iters reltol res Hn1 Hn2 Hn3 Ho H. unfold fly in H.
-    destruct (@schedule RNum (f_o_alt f) (f_d_alt f) (f_max_alt f)) as [s|e] eqn:Es; [|discriminate].
-    exists s. split; auto.
-    assert (Hs : sched_ok s).
-    { apply schedule_ok in Es. destruct Es as (A1 & A2 & A3 & A4 & _). unfold sched_ok. rewrite A3. auto. }
-    split; auto.
-    match type of H with (match ?X with Ok _ => _ | Err _ => _ end) = _ =>
-      destruct X as [[sm tf]|e0] eqn:Ec; [|discriminate] end.
-    destruct (@fly_iteration RNum perf geo true f s sm tf 1 0) as [[[[t r] kp] kg]|e0] eqn:E0; [|discriminate].
+    intros f s it max_iters reltol sm tf res Hs Hn1 Hn2 Hn3 Ho H. unfold fly_tail in H.
+    destruct (@fly_iteration RNum perf geo true gsp use_wx f s sm tf 1 0) as [[[[t r] kp] kg]|e0] eqn:E0; [|discriminate].
     destruct it.
     - match type of H with (match ?X with Ok _ => _ | Err _ => _ end) = _ =>
         destruct X as [[[[[[t' r'] sm'] tf'] kp'] kg']|e0] eqn:Ei; [|discriminate] end.
       inversion H; subst res; clear H. simpl.
       pose proof (iterate_tolerance_or_error f s reltol (Nat.pred max_iters) t r sm tf kp kg) as Htol.
       rewrite Ei in Htol. simpl in Htol.
+      pose proof (iterate_keeps_dry_mass _ _ _ _ _ _ _ _ _ _ _ _ _ _ _ _ Ei) as Hdry.
       destruct (iterate_returns_flown _ _ _ _ _ _ _ _ _ _ _ _ _ _ _ _ Ei) as [(-> & -> & -> & -> & -> & ->)|(kp0 & kg0 & H0)].
       + destruct (fly_iteration_facts _ _ _ _ _ _ _ _ _ _ Hs Hn1 Hn2 Hn3 Ho E0) as (F & Hr).
-        split; [exact F|split; [exact Hr|intros _; exact Htol]].
+        split; [exact F|split; [exact Hr|split; [intros _; exact Htol|split; [exact Hdry|discriminate]]]].
       + destruct (fly_iteration_facts _ _ _ _ _ _ _ _ _ _ Hs Hn1 Hn2 Hn3 Ho H0) as (F & Hr).
-        split; [exact F|split; [exact Hr|intros _; exact Htol]].
+        split; [exact F|split; [exact Hr|split; [intros _; exact Htol|split; [exact Hdry|discriminate]]]].
     - inversion H; subst res; clear H. simpl.
       destruct (fly_iteration_facts _ _ _ _ _ _ _ _ _ _ Hs Hn1 Hn2 Hn3 Ho E0) as (F & Hr).
-      split; [exact F|split; [exact Hr|discriminate]].
+      split; [exact F|split; [exact Hr|split; [discriminate|split; [reflexivity|reflexivity]]]].
   Qed.
 
   (* the residual that the iteration tests is the leftover trip fuel relative to the fuel load *)
@@ -656,10 +684,54 @@ Section BuilderProofs.
     f_equal. lra.
   Qed.
 
-  (* a starting mass handed in by the caller leaves the fuel load undefined: no trajectory is produced *)
-  Theorem given_mass_never_flies : forall (f : flight) (m : R) it max_iters (reltol : R),
-    exists e, @fly RNum perf geo true f (Some m) it max_iters reltol = Err e.
+  Variable gfix : bool.
+
+  Lemma fly_unfold : forall (f : flight) given it max_iters (reltol : R),
+    @fly RNum perf geo true gsp use_wx gfix f given it max_iters reltol =
+    match @schedule RNum (f_o_alt f) (f_d_alt f) (f_max_alt f) with
+    | Err e => Err e
+    | Ok s =>
+      if (match given with Some _ => negb gfix | None => false end) then Err ENoFuelLoad
+      else match @calc_starting_mass RNum perf 0 (s_crz s) (f_total f) (f_lf f) (f_max_payload f) (f_empty f) (f_max_mass f) with
+           | Err e => Err e
+           | Ok (sm0, tf) => fly_tail f s it max_iters reltol (match given with Some m => m | None => sm0 end) tf
+           end
+    end.
   Proof.
-    intros. unfold fly. destruct (@schedule RNum (f_o_alt f) (f_d_alt f) (f_max_alt f)); eexists; reflexivity.
+    intros. unfold fly, fly_tail. destruct (@schedule RNum _ _ _) as [s|e]; auto.
+    destruct given as [m|]; destruct gfix; simpl; auto.
   Qed.
+
+  Theorem fly_facts : forall (f : flight) given it max_iters (reltol : R) (res : result),
+    (2 <= f_n_clm f)%nat -> (2 <= f_n_crz f)%nat -> (2 <= f_n_des f)%nat ->
+    origin = (f_o_lon f, f_o_lat f, f_az0 f) ->
+    @fly RNum perf geo true gsp use_wx gfix f given it max_iters reltol = Ok res ->
+    exists s, @schedule RNum (f_o_alt f) (f_d_alt f) (f_max_alt f) = Ok s /\ sched_ok s /\
+      flight_facts f s (r_start_mass res) (r_total_fuel res) (r_traj res) /\
+      r_residual res = (r_total_fuel res - (r_start_mass res - p_mass (last (points (r_traj res)) pt0))) / r_total_fuel res /\
+      (it = true -> Rabs (r_residual res) < reltol) /\
+      (* a starting mass handed in is the one flown when the mass is not iterated *)
+      (forall m, given = Some m -> it = false -> r_start_mass res = m).
+  Proof.
+    intros f given it max_iters reltol res Hn1 Hn2 Hn3 Ho H. rewrite fly_unfold in H.
+    destruct (@schedule RNum (f_o_alt f) (f_d_alt f) (f_max_alt f)) as [s|e] eqn:Es; [|discriminate].
+    exists s. split; auto.
+    assert (Hs : sched_ok s).
+    { apply schedule_ok in Es. destruct Es as (A1 & A2 & A3 & A4 & _). unfold sched_ok. rewrite A3. auto. }
+    split; auto.
+    destruct (match given with Some _ => negb gfix | None => false end); [discriminate|].
+    destruct (@calc_starting_mass RNum perf 0 _ _ _ _ _ _) as [[sm0 tf]|e0]; [|discriminate].
+    destruct (fly_tail_facts _ _ _ _ _ _ _ _ Hs Hn1 Hn2 Hn3 Ho H) as (F & Hr & Ht & _ & Hm).
+    split; [exact F|split; [exact Hr|split; [exact Ht|]]].
+    intros m -> Hit. apply Hm; auto.
+  Qed.
+
+  (* before the fix: a starting mass handed in never produces a trajectory *)
+  Theorem given_mass_never_flies_before_fix : forall (f : flight) (m : R) it max_iters (reltol : R),
+    exists e, @fly RNum perf geo true gsp use_wx false f (Some m) it max_iters reltol = Err e.
+  Proof.
+    intros f m it max_iters reltol. unfold fly.
+    destruct (@schedule RNum (f_o_alt f) (f_d_alt f) (f_max_alt f)); eexists; reflexivity.
+  Qed.
+
 End BuilderProofs.
